@@ -197,6 +197,10 @@ fn check(o: &Opts) -> i32 {
         "C18" | "C19" => {
             engines.push("E4-sched");
             run_sched::run(o, &mut rep);
+            if o.prop == "C19" && o.cases.is_none() {
+                engines.push("E4t tight free-running race on take (three delivering threads kept alive)");
+                run_sched::tight_take_race(o, &mut rep);
+            }
             if o.tier == "thorough" && o.cases.is_none() {
                 engines.push("E4r real-executor race (async-std)");
                 run_sched::real_executor_race(o, &mut rep);
